@@ -241,10 +241,14 @@ func runWaitOnce(c WaitCase) (fail *evid.Failure, missed bool) {
 	}
 	if c.AnswerAfter > 0 {
 		from := 0
+		var firstReq netsim.Frame
 		for k := 0; k < c.AnswerAfter; k++ {
-			_, next, ok := e.tap.Scan(from, time.Until(deadline), isReqForHop)
+			f, next, ok := e.tap.Scan(from, time.Until(deadline), isReqForHop)
 			if !ok {
 				return evid.Failf("deadline:request", "request #%d for the next hop %x not seen within %v\n%s", k+1, hop, time.Since(t0), dump()), true
+			}
+			if k == 0 {
+				firstReq = f
 			}
 			from = next
 		}
@@ -262,24 +266,33 @@ func runWaitOnce(c WaitCase) (fail *evid.Failure, missed bool) {
 			e.injectReply(hop, hopMAC)
 		}
 		answered = true
-		for i := range c.Waiters {
-			if _, _, ok := e.tap.Scan(0, time.Until(deadline), isDataOf(i)); !ok {
-				return evid.Failf("deadline:data-frame", "waiter %d (%s) put nothing on the wire within %v although the next hop %x was answered (after request #%d)\n%s",
-					i, c.Waiters[i].Kind, time.Since(t0), hop, c.AnswerAfter, dump()), true
+		// If the harness was scheduled so late that the retry budget may have
+		// been spent before the answer went in, waiters may legitimately have
+		// failed: only the safety part is judged then.
+		late := time.Since(firstReq.T) >= budget
+		if late {
+			evid.Label("wait:answer-came-too-late")
+			time.Sleep(timeout)
+		} else {
+			for i := range c.Waiters {
+				if _, _, ok := e.tap.Scan(0, time.Until(deadline), isDataOf(i)); !ok {
+					return evid.Failf("deadline:data-frame", "waiter %d (%s) put nothing on the wire within %v although the next hop %x was answered (after request #%d) within the retry budget\n%s",
+						i, c.Waiters[i].Kind, time.Since(t0), hop, c.AnswerAfter, dump()), true
+				}
 			}
-		}
-		if !collect(func(w Waiter) bool { return w.Kind != "tcp" }) {
-			return evid.Failf("deadline:write", "a UDP Write did not return within %v after the answer\n%s", time.Since(t0), dump()), true
-		}
-		for i, r := range got {
-			if r == nil {
-				continue
+			if !collect(func(w Waiter) bool { return w.Kind != "tcp" }) {
+				return evid.Failf("deadline:write", "a UDP Write did not return within %v after the answer\n%s", time.Since(t0), dump()), true
 			}
-			if r.timedOut {
-				return evid.Failf("deadline:write", "waiter %d: Write still reports ErrWouldBlock at the deadline although the next hop was answered\n%s", i, dump()), true
-			}
-			if r.err != nil || int(r.n) != len(payloadOf(i)) {
-				return evid.Failf("write-after-answer", "waiter %d (%s): Write = (%d, %v) after the next hop was answered, want (%d, nil)\n%s", i, c.Waiters[i].Kind, r.n, r.err, len(payloadOf(i)), dump()), false
+			for i, r := range got {
+				if r == nil {
+					continue
+				}
+				if r.timedOut {
+					return evid.Failf("deadline:write", "waiter %d: Write still reports ErrWouldBlock at the deadline although the next hop was answered\n%s", i, dump()), true
+				}
+				if r.err != nil || int(r.n) != len(payloadOf(i)) {
+					return evid.Failf("write-after-answer", "waiter %d (%s): Write = (%d, %v) after the next hop was answered within the retry budget, want (%d, nil)\n%s", i, c.Waiters[i].Kind, r.n, r.err, len(payloadOf(i)), dump()), false
+				}
 			}
 		}
 	} else {
